@@ -46,6 +46,29 @@ pub struct SchedSpec {
     #[serde(flatten)]
     pub kind: SchedKind,
     pub seed: u64,
+    /// extra scheduling points of the seam are on for this execution: a lock holder may be descheduled
+    /// right after acquiring (inside its critical section), and every reference-count operation of a seam
+    /// `Arc` is a point at which another task may run
+    #[serde(default, skip_serializing_if = "is_false")]
+    pub hold: bool,
+}
+
+#[allow(clippy::trivially_copy_pass_by_ref)]
+fn is_false(b: &bool) -> bool {
+    !*b
+}
+
+/// Whether a schedule drawn with this seed switches the seam's extra scheduling points on: a pure
+/// function of the seed (three schedules in eight), so that drawing it consumes nothing from the run's
+/// PRNG.
+pub fn hold_for_seed(seed: u64) -> bool {
+    // VERIF_NO_EXTRA_POINTS=1 switches the extra points off for a whole batch; used by the self-test only,
+    // to show which changes are caught *because of* these points
+    static OFF: std::sync::OnceLock<bool> = std::sync::OnceLock::new();
+    if *OFF.get_or_init(|| std::env::var("VERIF_NO_EXTRA_POINTS").is_ok_and(|v| v == "1")) {
+        return false;
+    }
+    vmodel::rng::mix(&[seed, 0x401D_0B5E]) % 8 < 3
 }
 
 impl SchedSpec {
@@ -86,6 +109,9 @@ pub struct ExecLog {
     pub u64s: u64,
     /// stall_one: decisions at which the victim was runnable but held back
     pub stalled_decisions: u64,
+    /// extra scheduling points of the seam passed during the execution (inside critical sections, at
+    /// reference-count operations)
+    pub extra_points: u64,
 }
 
 pub struct SimScheduler {
